@@ -217,7 +217,9 @@ func checkProgress(r *fw.Run, rule string, cfg progressConfig) int {
 		}
 	}
 	rejects = rejectsEOF
-	endTest = func(e ast.Expr, branch bool) bool { return isEndOfInputTest(fiAny(p, cfg.pkg), info, e, branch, rejectsEOF, cfg) }
+	endTest = func(e ast.Expr, branch bool) bool {
+		return isEndOfInputTest(fiAny(p, cfg.pkg), info, e, branch, rejectsEOF, cfg)
+	}
 	for changed := true; changed; {
 		changed = false
 		for _, fi := range p.Funcs(cfg.pkg) {
